@@ -83,6 +83,35 @@ def step_fails(case, live, snap0, fmt, history):
     return fails
 
 
+def fresh_process_render(case, fmt):
+    """the same rendering done by a new interpreter (no earlier rendering has happened there)"""
+    import json
+    import os
+    import subprocess
+    import sys
+    from vlib import env
+    e = dict(os.environ, PYTHONPATH=env.VERIF, VERIF_REPO=env.REPO)
+    q = json.dumps({'system': case['system'], 'batch': case['batch'], 'fmt': fmt})
+    r = subprocess.run([sys.executable, '-m', 'vlib.render_worker'], input=q + '\n', capture_output=True, text=True,
+                       cwd=env.VERIF, env=e, timeout=300)
+    if r.returncode != 0 or not r.stdout.strip():
+        raise runner.HarnessError('render worker failed: ' + r.stderr[-500:])
+    out = json.loads(r.stdout.strip().split('\n')[-1])
+    return tuple(out) if isinstance(out, list) else out
+
+
+def history_fails(case, fmt):
+    """hidden process-wide state: a fresh copy rendered here (after whatever this process rendered before) must
+    equal the rendering of a process that has rendered nothing else"""
+    here = render(build_batch(case), fmt)
+    there = fresh_process_render(case, fmt)
+    if here != there:
+        return [(f'{PROPERTY}/depends-on-earlier-renderings/{fmt}',
+                 f'rendering {fmt} in this process (which rendered other results and formats before) gives '
+                 f'{str(here)[:160]!r}; a new interpreter gives {str(there)[:160]!r}')]
+    return []
+
+
 def _tup(x):
     if isinstance(x, (list, tuple)):
         return tuple(_tup(i) for i in x)
@@ -92,6 +121,16 @@ def _tup(x):
 
 
 def replay(case):
+    if case.get('kind') == 'history':
+        # reproduce the history first: render the bracket-token families in this process, then compare
+        fails = []
+        for fmt in case['formats']:
+            render(build_batch(case), fmt)
+        for fmt in case['formats']:
+            from depccg.lang import set_global_language_to
+            set_global_language_to(case['system'])
+            fails += history_fails(case, fmt)
+        return fails
     return check_sequence(case)
 
 
@@ -123,13 +162,18 @@ def _shard(ctx, shard, nshards):
     for lang in ('en', 'ja'):
         gen_tree.rule_index(lang)
 
+    counter = [0]
+
     class Machine(RuleBasedStateMachine):
         def __init__(self):
             super().__init__()
             self.case = None
+            self.check_history = False
 
         @initialize(data=tapes(1200))
         def init(self, data):
+            counter[0] += 1
+            self.check_history = counter[0] % 24 == 0
             self.case = build_case(data)
             set_global_language_to(self.case['system'])
             self.live = build_batch(self.case)
@@ -149,6 +193,13 @@ def _shard(ctx, shard, nshards):
             except Exception as ex:
                 fails = [(f'{PROPERTY}/unexpected-exception/{type(ex).__name__}', str(ex))]
             self.case['formats'] = history + [fmt]
+            if self.check_history and len(history) == 2:
+                fails = fails + history_fails(self.case, fmt)
+                ctx.notes['fresh_interpreter_comparisons'] = ctx.notes.get('fresh_interpreter_comparisons', 0) + 1
+                if any('depends-on-earlier' in f[0] for f in fails):
+                    ctx.report([f for f in fails if 'depends-on-earlier' in f[0]],
+                               {'kind': 'history', 'system': self.case['system'], 'batch': self.case['batch'],
+                                'formats': FORMATS[self.case['system']]})
             distinct = set(history)
             nontriv = len(distinct - {fmt}) >= 2 and any(h.split(':')[-1] in ('jigg_xml', 'to_jigg_xml', 'xml', 'xml_of', 'json')
                                                          for h in history)
